@@ -7,8 +7,7 @@ C02 layer (f2): the vocabulary for walking `readCommands` through its steps.
   handing out the flushed bytes and the next step.
 * `Mid`: the relation between the model state inside a step of `readCommands`
   and the specification state.
-* `Track`, `CapInv`: how the block counts, MLEN and the output evolve within
-  a command (for the 2^24 cap of single-type blocks and for the fuel).
+* `Track`: how the block counts, MLEN and the output evolve within a command.
 -/
 import Compress.Proofs.BrImplCmdSim
 
@@ -37,7 +36,6 @@ def After (sd : ByteArray) (ws : Nat) (res : Except Err Cmd × St) (lst : Bool) 
         Rel ws s' st' { d1 := c'.d1, d2 := c'.d2, d3 := c'.d3, d4 := c'.d4 } (del ++ X) ∧
         Zeros s'.dict ∧ s'.step = .blockHeader ∧ s'.last = lst
   | (.error _, st') =>
-    B0 + st'.out.size < 2 ^ 24 →
       (∃ s1, r = (.ok (), s1) ∧ s1.err = none ∧ s1.toRead ≠ [] ∧ s1.rd.bits.length ≤ B ∧
         ∃ X e, Trace sd (fin (.ok (), s1)) X e ∧ e ≠ .eof ∧ del ++ X = st'.out.toList) ∨
       (∃ e1 s1, r = (.error e1, s1) ∧
@@ -69,8 +67,7 @@ theorem After.susp {sd : ByteArray} {ws : Nat} {res : Except Err Cmd × St} {lst
   unfold After at H ⊢
   rcases res with ⟨e | c', st'⟩
   · dsimp only at H ⊢
-    intro hcap
-    rcases H hcap with ⟨s2, e1, e2, e3, e4, X, e, T, he, hX⟩ | ⟨e1, s2, e2, X, e, T, he, hX⟩
+    rcases H with ⟨s2, e1, e2, e3, e4, X, e, T, he, hX⟩ | ⟨e1, s2, e2, X, e, T, he, hX⟩
     · refine Or.inl ⟨s1, rfl, h1, h2, h4, s1.toRead ++ X, e, ?_, he, by rw [← List.append_assoc]; exact hX⟩
       have T1 : Trace sd (resume s1) X e :=
         Trace.step hr1 hr2 (by rw [hso, e1]; exact progress_ok _ _ e2 e3 e4) (by rw [hso, e1]; exact T)
@@ -100,7 +97,6 @@ theorem After.fail {sd : ByteArray} {ws : Nat} {res : Except Err Cmd × St} {lst
   subst hres
   unfold After
   dsimp only
-  intro _
   obtain ⟨X, T, hX⟩ := trace_error sd e1 s1 ws _ del hw
   exact Or.inr ⟨e1, s1, rfl, X, e1, T, he, hX⟩
 
@@ -161,14 +157,6 @@ theorem readFlush_ne_nil {ws : Nat} {d : Dict} {out del : List UInt8} (I : Inv w
   omega
 
 /-! ### counts, MLEN and output within a command -/
-
-/-- the specification's single-type blocks cannot be used up while fewer than 2^24 bits have been
-    read and bytes produced. -/
-def CapInv (B0 : Nat) (c : Cmd) (st : St) : Prop :=
-  st.bits.length ≤ B0 ∧
-  (c.litB.ntypes < 2 → 2 ^ 24 ≤ c.litB.count + st.out.size + (B0 - st.bits.length)) ∧
-  (c.cmdB.ntypes < 2 → 2 ^ 24 ≤ c.cmdB.count + st.out.size + (B0 - st.bits.length)) ∧
-  (c.distB.ntypes < 2 → 2 ^ 24 ≤ c.distB.count + st.out.size + (B0 - st.bits.length))
 
 /-- from the start `(c0, st0)` of a command to a point `(c, st)` inside it, `M` = Go's `blkLen`. -/
 structure Track (c0 : Cmd) (st0 : St) (c : Cmd) (st : St) (M : Int) : Prop where
